@@ -234,6 +234,15 @@ def g_c09(tier, seed):
                 samples=[dict(layer="BNAF", dim=2, depth=0, block_dim=1, weights="random")], failures=fails[:5], errors=[])
 
 
+@grid("C04")
+def g_c04(tier, seed):
+    cnt = []
+    fails = rt.rt_c04(tier, count=cnt)
+    return dict(evaluations=cnt[0] if cnt else 0, distinct_nontrivial=cnt[0] if cnt else 0,
+                rule="1-D and 2-D flows (planar tanh / leaky incl. slope > 1, masked autoregressive, coupling, LeakyTanh-spline chain; thorough: conditional, spline transformer, hand-built BNAF) with parameters perturbed away from the identity: trapezoid quadrature of exp(log_prob) on a tail-covering grid (|integral - 1| < 5e-3) and a fixed-seed KS statistic of 20000 samples against the quadrature CDF of each coordinate (threshold 0.035, false-alarm bound < 1e-9) -- BOUNDED stand-in for the statistical half",
+                samples=[dict(config="planar_flow(dim=2, leaky 2.0)")], failures=fails[:5], errors=[])
+
+
 @grid("C17")
 def g_c17(tier, seed):
     cnt = []
